@@ -104,9 +104,11 @@ pub struct XResult {
     pub max_depth: usize,
 }
 
-pub fn run_indicator(cfg: &Cfg, alphabet: &[Op], refwin: usize, threads: usize) -> XResult {
+/// `cap`: stop after that many states (the caller passes a bound derived from seqmc's closed graph, so a
+/// state space that stopped being finite cannot keep the cross-check running for ever).
+pub fn run_indicator(cfg: &Cfg, alphabet: &[Op], refwin: usize, threads: usize, cap: usize) -> XResult {
     let m = IndModel { cfg: *cfg, alphabet: alphabet.to_vec(), refwin };
-    let c = m.checker().threads(threads).spawn_bfs().join();
+    let c = m.checker().threads(threads).target_state_count(cap).spawn_bfs().join();
     XResult { unique_states: c.unique_state_count(), discoveries: c.discoveries().len(), max_depth: c.max_depth() }
 }
 
@@ -200,9 +202,9 @@ impl Model for LifeModel {
     }
 }
 
-pub fn run_lifecycle(cfg: &Cfg, alphabet: &[Op], threads: usize) -> XResult {
+pub fn run_lifecycle(cfg: &Cfg, alphabet: &[Op], threads: usize, cap: usize) -> XResult {
     let fresh_key = state_key(make(cfg).as_ref(), &[]);
     let m = LifeModel { cfg: *cfg, alphabet: alphabet.to_vec(), fresh_key };
-    let c = m.checker().threads(threads).spawn_bfs().join();
+    let c = m.checker().threads(threads).target_state_count(cap).spawn_bfs().join();
     XResult { unique_states: c.unique_state_count(), discoveries: c.discoveries().len(), max_depth: c.max_depth() }
 }
